@@ -133,3 +133,112 @@ m('rec_threshold_off_by_one_lax', 'harmful', 'C03', K,
 m('rec_duplicates_accepted', 'harmful', 'C06', K,
   '    if identifiers.len() != key_packages.len() {\n        return Err(Error::DuplicatedIdentifier);\n    }\n\n    // Compute the Lagrange coefficients', '    // Compute the Lagrange coefficients',
   'duplicate holders accepted')
+
+# replacements for keys mutants that hit an `at "<guard line>"` anchor (a mutated anchor line is a lost anchor = undecided by design)
+MUTANTS[:] = [x for x in MUTANTS if x[0] not in ('split_one_coefficient_too_many', 'rec_threshold_off_by_one_strict', 'rec_threshold_off_by_one_lax', 'rec_duplicates_accepted')]
+m('split_default_ids_of_t', 'harmful', 'C06', K,
+  '            let identifiers = default_identifiers(max_signers);', '            let identifiers = default_identifiers(min_signers);',
+  'default identifier list built for t instead of n participants')
+m('rec_too_few_not_refused', 'harmful', 'C03', K,
+  '    if key_packages.len() < min_signers as usize {\n        return Err(Error::IncorrectNumberOfShares);\n    }', '    if key_packages.len() < min_signers as usize {\n    }',
+  'fewer packages than the recorded threshold accepted')
+m('rec_duplicates_not_refused', 'harmful', 'C06', K,
+  '    if identifiers.len() != key_packages.len() {\n        return Err(Error::DuplicatedIdentifier);\n    }', '    if identifiers.len() != key_packages.len() {\n    }',
+  'duplicate holders accepted')
+m('rec_lagrange_at_own_point', 'harmful', 'C06', K,
+  '            compute_lagrange_coefficient(&identifiers, None, key_package.identifier)?;', '            compute_lagrange_coefficient(&identifiers, Some(key_package.identifier), key_package.identifier)?;',
+  'interpolation evaluated at the holder\'s own point instead of 0')
+
+# ---------------------------------------------------------------------------------------------------------------------
+# dkg.rs :: verify_proof_of_knowledge
+m('vpok_extra_early_refusal', 'benign', 'C08', D,
+  '    let ell = identifier;\n    let R_ell = proof_of_knowledge.R;',
+  '    if commitment.coefficients().is_empty() {\n        return Err(Error::IncorrectCommitment);\n    }\n    let ell = identifier;\n    let R_ell = proof_of_knowledge.R;',
+  'empty commitment refused first, with another error value')
+m('vpok_check_inverted', 'harmful', 'C08', D,
+  '    if R_ell != <C::Group>::generator() * mu_ell - phi_ell0.to_element() * c_ell.0 {', '    if R_ell == <C::Group>::generator() * mu_ell - phi_ell0.to_element() * c_ell.0 {',
+  'proof check inverted')
+m('vpok_wrong_sign', 'harmful', 'C07', D,
+  '    if R_ell != <C::Group>::generator() * mu_ell - phi_ell0.to_element() * c_ell.0 {', '    if R_ell != <C::Group>::generator() * mu_ell + phi_ell0.to_element() * c_ell.0 {',
+  'wrong sign in the verification equation')
+m('vpok_names_nobody', 'harmful', 'C08', D,
+  '        return Err(Error::InvalidProofOfKnowledge { culprit: ell });', '        return Err(Error::InvalidSignature);',
+  'invalid proof refused with an error that names nobody')
+
+# dkg.rs :: part1
+m('part1_extra_early_refusal', 'benign', 'C07', D,
+  '    validate_num_of_signers::<C>(min_signers, max_signers)?;\n\n    let secret: SigningKey<C> = SigningKey::new(&mut rng);',
+  '    if max_signers < min_signers {\n        return Err(Error::InvalidMaxSigners);\n    }\n    validate_num_of_signers::<C>(min_signers, max_signers)?;\n\n    let secret: SigningKey<C> = SigningKey::new(&mut rng);',
+  'n < t refused first with another error value')
+m('part1_one_coefficient_too_many', 'harmful', 'C07', D,
+  '    let coefficients = generate_coefficients::<C, R>(min_signers as usize - 1, &mut rng);\n\n    let (coefficients, commitment) =\n        generate_secret_polynomial(&secret,',
+  '    let coefficients = generate_coefficients::<C, R>(min_signers as usize, &mut rng);\n\n    let (coefficients, commitment) =\n        generate_secret_polynomial(&secret,',
+  't coefficients drawn instead of t-1')
+m('part1_n_t_exchanged', 'harmful', 'C07', D,
+  '        commitment.clone(),\n        min_signers,\n        max_signers,\n    );\n    let package = round1::Package {', '        commitment.clone(),\n        max_signers,\n        min_signers,\n    );\n    let package = round1::Package {',
+  'n and t exchanged in the secret package')
+
+# dkg.rs :: part2
+m('part2_guards_exchanged', 'benign', 'C08', D,
+  '    if round1_packages.len() != (secret_package.max_signers - 1) as usize {\n        return Err(Error::IncorrectNumberOfPackages);\n    }\n\n    if round1_packages.contains_key(&secret_package.identifier) {\n        return Err(Error::UnknownIdentifier);\n    }\n',
+  '    if round1_packages.contains_key(&secret_package.identifier) {\n        return Err(Error::UnknownIdentifier);\n    }\n\n    if round1_packages.len() != (secret_package.max_signers - 1) as usize {\n        return Err(Error::IncorrectNumberOfPackages);\n    }\n',
+  'own-identifier check made before the count check')
+m('part2_other_error_value', 'benign', 'C08', D,
+  '    if round1_packages.contains_key(&secret_package.identifier) {\n        return Err(Error::UnknownIdentifier);\n    }\n\n    for package in round1_packages.values() {',
+  '    if round1_packages.contains_key(&secret_package.identifier) {\n        return Err(Error::IncorrectPackage);\n    }\n\n    for package in round1_packages.values() {',
+  'contribution under the own identifier refused with another error value')
+m('part2_surplus_accepted', 'harmful', 'C08', D,
+  '    if round1_packages.len() != (secret_package.max_signers - 1) as usize {\n        return Err(Error::IncorrectNumberOfPackages);\n    }\n\n    if round1_packages.contains_key(&secret_package.identifier) {',
+  '    if round1_packages.len() < (secret_package.max_signers - 1) as usize {\n        return Err(Error::IncorrectNumberOfPackages);\n    }\n\n    if round1_packages.contains_key(&secret_package.identifier) {',
+  'surplus round-one contribution accepted')
+m('part2_own_id_accepted', 'harmful', 'C08', D,
+  '    if round1_packages.contains_key(&secret_package.identifier) {\n        return Err(Error::UnknownIdentifier);\n    }\n\n    for package in round1_packages.values() {', '    for package in round1_packages.values() {',
+  'contribution under the own identifier accepted')
+m('part2_proof_not_verified', 'harmful', 'C08', D,
+  '        verify_proof_of_knowledge(\n            ell,\n            &round1_package.commitment,\n            &round1_package.proof_of_knowledge,\n        )?;\n', '',
+  'proofs of knowledge not verified')
+m('part2_proof_for_other_identifier', 'harmful', 'C08', D,
+  '        verify_proof_of_knowledge(\n            ell,', '        verify_proof_of_knowledge(\n            secret_package.identifier,',
+  'proof verified for the recipient\'s identifier instead of the sender\'s')
+
+# dkg.rs :: part3
+m('part3_guards_exchanged', 'benign', 'C08', D,
+  '    if round1_packages.len() != (round2_secret_package.max_signers - 1) as usize {\n        return Err(Error::IncorrectNumberOfPackages);\n    }\n    if round1_packages.contains_key(&round2_secret_package.identifier) {\n        return Err(Error::UnknownIdentifier);\n    }\n',
+  '    if round1_packages.contains_key(&round2_secret_package.identifier) {\n        return Err(Error::UnknownIdentifier);\n    }\n    if round1_packages.len() != (round2_secret_package.max_signers - 1) as usize {\n        return Err(Error::IncorrectNumberOfPackages);\n    }\n',
+  'own-identifier check made before the count check')
+m('part3_extra_early_refusal', 'benign', 'C09', D,
+  '    if round1_packages.len() != (round2_secret_package.max_signers - 1) as usize {\n        return Err(Error::IncorrectNumberOfPackages);\n    }\n    if round1_packages.contains_key(&round2_secret_package.identifier) {',
+  '    if round2_packages.len() != (round2_secret_package.max_signers - 1) as usize {\n        return Err(Error::IncorrectNumberOfPackages);\n    }\n    if round1_packages.len() != (round2_secret_package.max_signers - 1) as usize {\n        return Err(Error::IncorrectNumberOfPackages);\n    }\n    if round1_packages.contains_key(&round2_secret_package.identifier) {',
+  'wrong number of round-two packages refused first (refused later anyway)')
+m('part3_wrong_culprit', 'harmful', 'C08', D,
+  '                    culprit: Some(*sender_identifier),', '                    culprit: Some(round2_secret_package.identifier),',
+  'the recipient is named instead of the sender')
+m('part3_redundant_guard_dropped', 'benign', 'C08', D,
+  '    if round2_packages.contains_key(&round2_secret_package.identifier) {\n        return Err(Error::UnknownIdentifier);\n    }\n', '',
+  'own identifier among the round-two senders no longer refused on its own: still refused (the two sender sets must be equal), other error value')
+m('part3_own_id_accepted', 'harmful', 'C08', D,
+  '    if round1_packages.contains_key(&round2_secret_package.identifier) {\n        return Err(Error::UnknownIdentifier);\n    }\n    if round2_packages.contains_key(&round2_secret_package.identifier) {\n        return Err(Error::UnknownIdentifier);\n    }\n', '',
+  'contributions filed under the own identifier accepted (both guards dropped)')
+m('part3_surplus_round1_accepted', 'harmful', 'C08', D,
+  '    if round1_packages.len() != (round2_secret_package.max_signers - 1) as usize {\n        return Err(Error::IncorrectNumberOfPackages);\n    }\n    if round1_packages.contains_key(&round2_secret_package.identifier) {',
+  '    if round1_packages.len() < (round2_secret_package.max_signers - 1) as usize {\n        return Err(Error::IncorrectNumberOfPackages);\n    }\n    if round1_packages.contains_key(&round2_secret_package.identifier) {',
+  'surplus round-one contribution accepted')
+m('part3_share_checked_at_sender', 'harmful', 'C09', D,
+  '            identifier: round2_secret_package.identifier,\n            signing_share: f_ell_i,', '            identifier: ell,\n            signing_share: f_ell_i,',
+  'share verified at the sender\'s identifier (a share computed for another recipient passes)')
+m('part3_wrong_sign', 'harmful', 'C07', D,
+  '        signing_share = signing_share + f_ell_i.to_scalar();\n    }\n\n    signing_share = signing_share + round2_secret_package.secret_share();\n    let signing_share = SigningShare::new(signing_share);\n\n    // Round 2, Step 4',
+  '        signing_share = signing_share - f_ell_i.to_scalar();\n    }\n\n    signing_share = signing_share + round2_secret_package.secret_share();\n    let signing_share = SigningShare::new(signing_share);\n\n    // Round 2, Step 4',
+  'received shares subtracted')
+
+# error.rs :: Error::culprits
+m('culprits_arms_exchanged', 'benign', 'C08', E,
+  '            Error::InvalidSignatureShare { culprits } => culprits.clone(),\n            Error::InvalidProofOfKnowledge { culprit } => vec![*culprit],',
+  '            Error::InvalidProofOfKnowledge { culprit } => vec![*culprit],\n            Error::InvalidSignatureShare { culprits } => culprits.clone(),',
+  'two match arms exchanged (no behaviour change)')
+m('culprits_pok_names_nobody', 'harmful', 'C08', E,
+  '            Error::InvalidProofOfKnowledge { culprit } => vec![*culprit],', '            Error::InvalidProofOfKnowledge { culprit } => vec![],',
+  'invalid proof of knowledge blames nobody')
+m('culprits_sigshare_names_nobody', 'harmful', 'C08', E,
+  '            Error::InvalidSignatureShare { culprits } => culprits.clone(),', '            Error::InvalidSignatureShare { culprits } => vec![],',
+  'invalid signature share blames nobody')
